@@ -57,6 +57,7 @@ DEFAULT_KNOBS = dict(
     dyadic=False,  # prices/sizes/spacings exactly representable (boundary scenarios)
     removal_plan=None,  # [(runner index, adjustment factor)] forces these removals
     p_handicap=0.12,  # runners carry a non-zero handicap (handicap-style market: runner key = (selection id, handicap))
+    p_lines=0.0,  # Asian-handicap style: the SAME selection id is listed on several handicap lines (only checks whose oracles look runners up by (selection, handicap) set this)
 )
 
 
@@ -94,6 +95,7 @@ class RunnerModel:
         self.atb = {}
         self.atl = {}
         self.trd = {}
+        self.burnt = set()
         self.ltp = None
         if line:
             lo, hi, step = line
@@ -135,6 +137,15 @@ class RunnerModel:
 
     def evolve(self, p_trade):
         rng = self.rng
+        if self.trd and rng.random() < 0.04:
+            # exchange correction: a traded level is withdrawn (cumulative volume back to 0); the price never trades
+            # again in this history (a re-appearing level would be ambiguous), and most of the time another level
+            # trades in the same update, so that the depth of the traded ladder does not change
+            p = rng.choice(sorted(self.trd))
+            del self.trd[p]
+            self.burnt.add(p)
+            if rng.random() < 0.7:
+                self._trade()
         n_ev = rng.choice([0, 1, 1, 1, 2, 3])
         for _ in range(n_ev):
             x = rng.random()
@@ -168,6 +179,8 @@ class RunnerModel:
         for _ in range(n_levels):
             i = rng.choice(cands)
             p = self.ladder[i]
+            if p in self.burnt:
+                continue
             x = _size(rng, self.dyadic)
             self.trd[p] = r2(self.trd.get(p, 0.0) + 2 * x)
             self.ltp = p
@@ -257,6 +270,13 @@ def gen_market(rng, idx, knobs=None, t0=None, event_id=None):
     hrng = random.Random("hc|%s|%s" % (market["id"], t0))
     if not line and hrng.random() < k["p_handicap"]:
         market["hc"] = {str(s): (hrng.choice([-2.5, -1.5, -1.0, -0.5, 0.5, 1.0, 1.5, 2.5]) if hrng.random() < 0.85 else 0) for s in sels}
+    if not line and len(sels) >= 2 and mtype != "EACH_WAY" and hrng.random() < k["p_lines"]:
+        # internal runner keys stay 101.., on the wire they are two selection ids listed on len(sels)/2 handicap lines
+        lines_ = [-1.5, 0.5, -0.5, 1.5, 2.5]
+        market["rk"] = {str(s): [201 + (i % 2), lines_[i // 2]] for i, s in enumerate(sels)}
+        market.pop("hc", None)
+        market["market_type"] = "ASIAN_HANDICAP"
+        market["winners"] = max(1, (len(sels) + 1) // 2)
     runners = {s: RunnerModel(rng, s, line=line, dyadic=dyadic) for s in sels}
     # adjustment factors (sum ~100 in WIN markets)
     raw = [rng.uniform(1, 10) for _ in sels]
@@ -416,6 +436,25 @@ def _closing_update(rng, market, last, pt, k):
 # --------------------------------------------------------------------------- serialisation
 
 
+def wire_key(market, s):
+    """(selection id, handicap) under which the internal runner key s is published."""
+    rk = market.get("rk")
+    if rk:
+        sid, hc = rk[str(s)]
+        return sid, hc
+    return s, (market.get("hc") or {}).get(str(s), 0)
+
+
+def internal_key(market, selection_id, handicap):
+    rk = market.get("rk")
+    if rk:
+        for k, (sid, hc) in rk.items():
+            if sid == selection_id and hc == (handicap or 0):
+                return k
+        return None
+    return str(selection_id)
+
+
 def market_definition(market, upd):
     mt = upd.get("mt") or market["market_time"]  # "mt": the market was rescheduled (new marketTime from this update on)
     md = {
@@ -455,9 +494,10 @@ def market_definition(market, upd):
         md["lineMinUnit"], md["lineMaxUnit"], md["lineInterval"] = lo, hi, step
     for i, s in enumerate(market["runners"]):
         rs = upd["r"][str(s)]
-        rd = {"status": rs["st"], "sortPriority": i + 1, "id": s}
-        if (market.get("hc") or {}).get(str(s)):
-            rd["hc"] = market["hc"][str(s)]
+        sid, hc = wire_key(market, s)
+        rd = {"status": rs["st"], "sortPriority": i + 1, "id": sid}
+        if hc:
+            rd["hc"] = hc
         if rs.get("af") is not None:
             rd["adjustmentFactor"] = rs["af"]
         if rs.get("bsp") is not None:
@@ -502,9 +542,10 @@ def serialise_lines(market):
             if cur["ltp"] != old["ltp"] and cur["ltp"] is not None:
                 ch["ltp"] = cur["ltp"]
             if ch:
-                ch["id"] = s
-                if (market.get("hc") or {}).get(str(s)):
-                    ch["hc"] = market["hc"][str(s)]
+                sid, hc = wire_key(market, s)
+                ch["id"] = sid
+                if hc:
+                    ch["hc"] = hc
                 ch["tv"] = r2(sum(c for _, c in cur["trd"]))
                 rc.append(ch)
         if rc:
@@ -524,11 +565,12 @@ def image_line(market, j):
     rc = []
     for s in market["runners"]:
         cur = upd["r"][str(s)]
-        ch = {"id": s, "atb": cur["atb"], "atl": cur["atl"], "trd": cur["trd"], "tv": r2(sum(c for _, c in cur["trd"]))}
+        sid, hc = wire_key(market, s)
+        ch = {"id": sid, "atb": cur["atb"], "atl": cur["atl"], "trd": cur["trd"], "tv": r2(sum(c for _, c in cur["trd"]))}
         if cur["ltp"] is not None:
             ch["ltp"] = cur["ltp"]
-        if (market.get("hc") or {}).get(str(s)):
-            ch["hc"] = market["hc"][str(s)]
+        if hc:
+            ch["hc"] = hc
         for k in ("atb", "atl", "trd"):
             if not ch[k]:
                 del ch[k]
